@@ -231,3 +231,29 @@ Definition mk_item (c : ccfg) (r : ritem) : item := MkItem (ri_id r) (ri_attr r)
 (** a history over items given as raw dictionaries, with the configured names / defaults / edge attribute *)
 Definition runr (c : ccfg) (mode : attr_mode) (pool : list ritem) (ops : list opx) : tok :=
   runx (cc_defs c) mode (map (mk_item c) pool) ops.
+
+(* ---------- graph_morphism.graph_isomorphism(g1, g2, node_match, edge_match, use_defaults): option handling ---------- *)
+(** node and edge matcher may be absent independently (None = everything matches on that side) *)
+Definition graph_iso2 (nl el : bool) (defs : list N) (g1 g2 : graph) : bool :=
+  (length (gnodes g1) =? length (gnodes g2))%nat &&
+  match monos (node_ids g2) (node_ids g1) (label g2) (label g1) (LGraph.adj g2) (LGraph.adj g1)
+              (node_match nl defs) (edge_match el) true with
+  | [] => false
+  | _ :: _ => true
+  end.
+
+(** [c]: the configuration the CALLER's matchers were built from (when given); [cdef]: the function's own defaults
+    (["element", "charge"], ["*", 0], "order"), used for a matcher that is None when use_defaults is set; a matcher that is
+    None without use_defaults stays None *)
+Definition iso_call (c cdef : ccfg) (nm_given em_given use_defaults : bool) (g1 g2 : rgraph13) : bool :=
+  let ncfg := if nm_given then Some c else if use_defaults then Some cdef else None in
+  let ecfg := if em_given then Some c else if use_defaults then Some cdef else None in
+  let mixed := {| cc_names := match ncfg with Some x => cc_names x | None => [] end;
+                  cc_defs := match ncfg with Some x => cc_defs x | None => [] end;
+                  cc_edge := match ecfg with Some x => cc_edge x | None => 0%N end |} in
+  graph_iso2 (match ncfg with Some _ => true | None => false end) (match ecfg with Some _ => true | None => false end)
+             (cc_defs mixed) (project13 mixed g1) (project13 mixed g2).
+
+Definition dummy_ritem : ritem := MkRItem 0 [] (LG [] []).
+Definition iso_call_pool (c cdef : ccfg) (nm_given em_given use_defaults : bool) (rpool : list ritem) (i j : nat) : bool :=
+  iso_call c cdef nm_given em_given use_defaults (ri_graph (nth i rpool dummy_ritem)) (ri_graph (nth j rpool dummy_ritem)).
